@@ -231,8 +231,42 @@ func contains(s, sub string) bool {
 	return false
 }
 
+// neighbour returns the case with one field moved by one step (the next second, minute, day, unit): a value decoded right
+// after a nearly equal one is what memoising decoders get wrong.
+func neighbour(c rtCase) (rtCase, bool) {
+	n := c
+	n.Fields = append([]fv.FV(nil), c.Fields...)
+	for k := 0; k < len(n.Fields); k++ {
+		i := (k + int(c.Code)) % len(n.Fields)
+		x := &n.Fields[i]
+		switch {
+		case x.Zero || x.Nil:
+			continue
+		case x.Y != 0 && x.S < 59 && (x.H != 0 || x.Mi != 0 || x.S != 0):
+			x.S++
+			return n, true
+		case x.Y == 0 && x.Mi > 0 && x.Mi < 59:
+			x.Mi++
+			return n, true
+		case x.U > 1 && x.U < 200:
+			x.U++
+			return n, true
+		}
+	}
+	return n, false
+}
+
 func checkRT(c rtCase) *rp.Fail {
 	f, key, nt := decideRT(c)
+	if f == nil {
+		if n, ok := neighbour(c); ok {
+			ev.Class("value/neighbour-decoded-right-after", 1)
+			if f2, _, _ := decideRT(n); f2 != nil {
+				f2.Msg = "(second of two nearly equal values decoded back to back) " + f2.Msg
+				f = f2
+			}
+		}
+	}
 	class := fmt.Sprintf("%s/0x%02x", c.Kind, c.Code)
 	ev.Case(class, nt, key)
 	if c.Zone != "UTC" {
